@@ -31,10 +31,14 @@ void *__ckd_alloc_3d_ptr(size_t d1, size_t d2, size_t d3, void *store, size_t el
 int isspace_c(char ch) { return ch == ' ' || ch == '\t' || ch == '\n' || ch == '\r' || ch == '\v' || ch == '\f'; }
 void h_s3file_nextline(void) { s3file_t *s; s3file_nextline(s); VERIF_CANARY(); }
 void h_s3file_nextword(void) { s3file_t *s; const char **p; s3file_nextword(s, p); VERIF_CANARY(); }
-void h_s3file_get(void) { void *b; size_t e, n; s3file_t *s; s3file_get(b, e, n, s); VERIF_CANARY(); }
-void h_s3file_get_1d(void) { void **b; size_t e; uint32 *n; s3file_t *s; s3file_get_1d(b, e, n, s); VERIF_CANARY(); }
-void h_s3file_get_2d(void) { void ***a; size_t e; uint32 *d1, *d2; s3file_t *s; s3file_get_2d(a, e, d1, d2, s); VERIF_CANARY(); }
-void h_s3file_get_3d(void) { void ****a; size_t e; uint32 *d1, *d2, *d3; s3file_t *s; s3file_get_3d(a, e, d1, d2, d3, s); VERIF_CANARY(); }
+#ifndef S3_ELSZ
+#define S3_ELSZ 4
+#endif
+/* the element size is a compile-time constant per run so that symex folds the multiplications */
+void h_s3file_get(void) { void *b; size_t n; s3file_t *s; s3file_get(b, S3_ELSZ, n, s); VERIF_CANARY(); }
+void h_s3file_get_1d(void) { void **b; uint32 *n; s3file_t *s; s3file_get_1d(b, S3_ELSZ, n, s); VERIF_CANARY(); }
+void h_s3file_get_2d(void) { void ***a; uint32 *d1, *d2; s3file_t *s; s3file_get_2d(a, S3_ELSZ, d1, d2, s); VERIF_CANARY(); }
+void h_s3file_get_3d(void) { void ****a; uint32 *d1, *d2, *d3; s3file_t *s; s3file_get_3d(a, S3_ELSZ, d1, d2, d3, s); VERIF_CANARY(); }
 void h_chksum_accum_bounded(void) { const void *b; size_t e, n; uint32 s; chksum_accum(b, e, n, s); VERIF_CANARY(); }
 void h_s3file_verify_chksum(void) { s3file_t *s; s3file_verify_chksum(s); VERIF_CANARY(); }
 #endif
